@@ -125,10 +125,21 @@ class C19(Prop):
                     break
                 if name == "match" and o["outcome"] in ("added", "updated") and kv["pre"].startswith("ok:"):
                     for w in o["writes"].split(","):
-                        last_value[w.split(":", 1)[1]] = kv["pre"][3:]
-            for p, v in last_value.items():
+                        last_value[w.split(":", 1)[1]] = (kv["pre"][3:], kv.get("form", ""))
+            for p, (v, form) in last_value.items():
                 if final1.get(p) != v:
-                    fails.append({"msg": "file %r does not hold the recorded value verbatim" % unhx(p)})
+                    f = {"msg": "file %r does not hold the recorded value verbatim" % unhx(p)}
+                    if form == "value" and final1.get(p) is not None:
+                        # the call handed a Go VALUE: the expected text is this harness's idea of its encoding (json.Marshal). A file
+                        # that holds the SAME JSON value in another spelling (`<` for `\u003c`) is the formatted value of a library
+                        # that encodes differently - a broken tie, not a file that holds something else than the value
+                        try:
+                            import json as _json
+                            if _json.loads(unhx(final1[p]).decode("utf-8")) == _json.loads(unhx(v).decode("utf-8")):
+                                f["tie"] = True
+                        except Exception:
+                            pass
+                    fails.append(f)
         # (3) replay
         if len(fss) == 2:
             p1 = case["meta"].get("p1_len")
